@@ -349,6 +349,9 @@ def run_history(case: dict, oracles, after_session=None, chunk: int = 0,
                                      "where": where}) from e
                         break
                     completed += 1
+                    if hr.rejected:
+                        probes["rejected_write_caught"] += len(hr.rejected)
+                        hr.rejected.clear()
                     if ses["kind"] == "multi" and not ses.get(
                             "single_process"):
                         probes["multi_under_simpool"] += 1
